@@ -187,8 +187,10 @@ struct Renderer {
     Rng & r; const File & f; Mut mut; bool plain;
     std::vector<std::string> lines;
     bool idxMut() const { return mut.cls == "unknown_name" || mut.cls == "index_out_of_range" || (mut.cls == "trailing_garbage" && mut.arg % 2 == 0); }
-    std::string sp(int lo = 1) { if (plain) return " "; return std::string((size_t)(lo + (r.coin(1, 4) ? r.below(3) : 0)), ' '); }
-    std::string col() { if (plain) return " : "; switch (r.below(5)) { case 0: return ":"; case 1: return ": "; case 2: return " :"; case 3: return "  :  "; default: return " : "; } }
+    std::string sp(int lo = 1) { if (plain) return " "; if (r.coin(1, 30)) return r.coin() ? "\t " : " \t"; return std::string((size_t)(lo + (r.coin(1, 4) ? r.below(3) : 0)), ' '); }
+    // a tab glued to a token ends up at the edge of that token and is trimmed away; a tab between two delimiters would be an (empty) token of its own
+    std::string col() { if (plain) return " : "; switch (r.below(24)) { case 0: case 1: case 2: case 3: return ":"; case 4: case 5: case 6: case 7: return ": "; case 8: case 9: case 10: case 11: return " :";
+                                                  case 12: case 13: case 14: return "  :  "; case 15: return ":\t"; case 16: return "\t:"; default: return " : "; } }
     std::string idx(const Sel & s, const std::vector<std::string> & names, size_t max, bool mutHere) {
         if (mutHere && mut.cls == "unknown_name") { static const char * u[] = {"zz9", "nosuch", "Q", "s99x", "star", "stale0", "stale0"}; return u[mut.arg % 7]; }
         if (mutHere && mut.cls == "index_out_of_range") return std::to_string(max + (size_t)(mut.arg % 2));
